@@ -129,8 +129,27 @@ def gen_repl(rng, clock):
     start = rng.choice([0, 0, 0, 8 * u])
     length = u * rng.randint(2, 40)
     w = rng.random()
-    warm = start if w < 0.15 else (start + u * rng.randint(0, length // u) if w < 0.85 else start + length + u * rng.randint(0, 3))
+    warm = (start if w < 0.15 else start + length if w < 0.25 else
+            start + u * rng.randint(0, length // u) if w < 0.85 else start + length + u * rng.randint(0, 3))
     return ["init", start, warm, start + length]
+
+
+def listener_cmds(rng, u):
+    """commands issued from inside listeners, in states where the documented rules refuse them: while the
+    run is going on (TIME_CHANGED / WARMUP / START / STARTING), while the replication is ending (STOP with
+    the replication ENDING or ENDED) and while END_REPLICATION is delivered"""
+    def some_cmd(with_stop):
+        cs = [["start"], ["step"], ["runupto", u * rng.randint(0, 44)], ["runuptoincl", u * rng.randint(0, 44)]]
+        if with_stop:
+            cs += [["stop"], ["endrepl"]]
+        return rng.choice(cs)
+    pool = [{"ntf": "stop", "when_ps": ["ENDING", "ENDED"], "cmd": some_cmd(True)},
+            {"ntf": "endrepl", "when_ps": ["ENDED"], "cmd": some_cmd(True)},
+            {"ntf": "time", "when_rs": ["STARTED"], "cmd": some_cmd(False), "max": 2},
+            {"ntf": "warmup", "when_rs": ["STARTED"], "cmd": some_cmd(False)},
+            {"ntf": "start", "when_rs": ["STARTING", "STARTED"], "cmd": some_cmd(False), "max": 2},
+            {"ntf": "starting", "when_rs": ["STARTING"], "cmd": some_cmd(False), "max": 2}]
+    return rng.sample(pool, rng.randint(1, 3))
 
 
 def gen_random_case(rng, i, allow_stop):
@@ -140,12 +159,16 @@ def gen_random_case(rng, i, allow_stop):
     n = rng.randint(4, 22)
     cmds = []
     t = 0
+    cur_end = None
     for j in range(n):
         r = rng.random()
         if j == 0 and r < 0.85:
-            cmds.append(gen_repl(rng, clock)); t = cmds[-1][1]; continue
+            cmds.append(gen_repl(rng, clock)); t = cmds[-1][1]; cur_end = cmds[-1][3]
+            if rng.random() < 0.3:          # a model event exactly at the end of the replication
+                prog[0].append(["sched", ["abs", cur_end], rng.choice(PRIOS), rng.randint(1, len(prog) - 1)])
+            continue
         if r < 0.10:
-            cmds.append(gen_repl(rng, clock)); t = cmds[-1][1]
+            cmds.append(gen_repl(rng, clock)); t = cmds[-1][1]; cur_end = cmds[-1][3]
         elif r < 0.14:
             cmds.append(["initbad"])
         elif r < 0.30:
@@ -157,13 +180,18 @@ def gen_random_case(rng, i, allow_stop):
         elif r < 0.86:
             t += u * rng.choice([0, 1, 2, 3, 5, 8])
             tt = "nan" if rng.random() < 0.04 else (t - u * rng.randint(1, 9) if rng.random() < 0.1 else t)
+            if cur_end is not None and rng.random() < 0.15:
+                tt = cur_end + u * rng.randint(1, 4)          # a bound strictly beyond the replication end
             cmds.append(["runupto" if rng.random() < 0.5 else "runuptoincl", tt])
         elif r < 0.93:
             cmds.append(["endrepl"])
         else:
             cmds.append(["cleanup"])
-    return {"kind": "seq", "clock": clock, "strategy": rng.choice(["pause", "log", "warn"]), "prog": prog,
+    case = {"kind": "seq", "clock": clock, "strategy": rng.choice(["pause", "log", "warn"]), "prog": prog,
             "cmds": cmds, "src": "random"}
+    if rng.random() < 0.25:
+        case["lcmds"] = listener_cmds(rng, u)
+    return case
 
 
 # ============================================================================ running the implementation
@@ -333,7 +361,7 @@ def check_quiescent(sn, mon, tag=""):
 
 def oracle(case, obs):
     """first violated clause as (signature, description) or None; plus facts about the case"""
-    facts = {"refusal": False, "reinit": False, "ended": False, "inner_cmd": False, "cleanup": False,
+    facts = {"refusal": False, "reinit": False, "ended": False, "inner_cmd": False, "listener_cmd": False, "cleanup": False,
              "resumed": False, "executed": 0, "accepted": 0}
     if "error" in obs:
         return ("driver-error", obs["error"]), facts
@@ -350,6 +378,7 @@ def oracle(case, obs):
     max_t = None                # latest event / time-changed time of this replication
     starts = 0
     prev_quiet = True
+    ended_incl = None
     for ent in obs["log"]:
         kind = ent[0]
         if kind == "ntf":
@@ -389,6 +418,22 @@ def oracle(case, obs):
                 return ("accept-refuse-rule-violated", f"{c} from a handler in state {before[0]}/{before[1]}: {r}, documented rule says {exp}"), facts
             if r == "refused" and before != after:
                 return ("refused-command-changed-state", f"{c} from a handler: {before} -> {after}"), facts
+        elif kind == "lcmd":
+            facts["listener_cmd"] = True
+            c, r, before, after, where = ent[1], ent[2], ent[3], ent[4], ent[5]
+            if r not in ("ok", "refused"):
+                return ("command-raises-unrelated-error", f"{c} from a {where} listener in state {before[0]}/{before[1]} -> {r}"), facts
+            exp = expected_outcome(c, before[0], before[1], before[2], end)
+            if r != exp:
+                return ("accept-refuse-rule-violated", f"{c} from a {where} listener in state {before[0]}/{before[1]} clock {before[2]} "
+                                                       f"end {end}: {r}, documented rule says {exp}"), facts
+            if r == "refused" and before != after:
+                return ("refused-command-changed-state", f"{c} from a {where} listener: {before} -> {after}"), facts
+        elif kind == "pmin":
+            if ended_incl is not None and ent[1] is not None and ent[1] <= end:
+                return ("event-at-end-not-executed", f"{ended_incl} ended the replication at {end} although an event at time {ent[1]} "
+                                                     "was still pending (a run capped at the replication end includes the end time)"), facts
+            ended_incl = None
         elif kind == "cmd":
             c, sn = ent[1], ent[2:]
             r, rs2, ps2, clk2, np2, live2, quiet = sn
@@ -436,8 +481,15 @@ def oracle(case, obs):
                 return (bad[0], f"after {c}: {bad[1]}"), facts
             if ps2 == "ENDED":
                 facts["ended"] = True
-                if clk2 != end and rs == "STARTED":
-                    pass
+                if ps != "ENDED" and r == "ok" and c[0] in ("start", "runupto", "runuptoincl") and quiet:
+                    # the replication was ended by a run (not by end_replication, which discards what is pending);
+                    # the run includes the end time unless it was an exclusive bound exactly at the end
+                    incl_end = c[0] == "start" or (c[0] == "runuptoincl" and c[1] >= end) or (c[0] == "runupto" and c[1] > end)
+                    if incl_end:
+                        ended_incl = c
+                    if mon is not None and not mon.wu and mon.start <= mon.warm and (mon.warm < end or (mon.warm == end and incl_end)):
+                        return ("warmup-missed", f"{c} ran the replication to its end {end}, past the warm-up time {mon.warm}, "
+                                                 "yet WARMUP was never notified"), facts
             rs, ps, clk, npend, live = rs2, ps2, clk2, np2, live2
             prev_quiet = quiet is not None
             seg = []
@@ -595,6 +647,15 @@ def shrink_seq(case, pred):
             del cand["cmds"][i]
             budget -= 1
             if cand["cmds"] and pred(cand):
+                cur, changed = cand, True
+                break
+        if changed:
+            continue
+        for i in range(len(cur.get("lcmds", []))):
+            cand = json.loads(json.dumps(cur))
+            del cand["lcmds"][i]
+            budget -= 1
+            if pred(cand):
                 cur, changed = cand, True
                 break
         if changed:
@@ -916,7 +977,7 @@ def main(tier: str) -> int:
             small = shrink_seq(cases[i], pred)
         o2 = run_impl([small], 1)[0]
         b, _ = oracle(small, o2)
-        run.violation(sig, (b or bad)[1], {"case": {k: small[k] for k in ("kind", "clock", "strategy", "prog", "cmds")},
+        run.violation(sig, (b or bad)[1], {"case": {k: small[k] for k in ("kind", "clock", "strategy", "prog", "cmds", "lcmds", "rapid", "slow_handler_ms") if k in small},
                                            "impl_observation": {k: o2.get(k) for k in ("snaps", "ntfs", "log", "alive", "notes", "error")},
                                            "how": "feed [case] as a JSON list to harness/c04_impl.py with PYTHONPATH=<repo>/src"})
 
@@ -997,7 +1058,7 @@ def main(tier: str) -> int:
             report_seq(len(cases) - 1, found[1])
         else:
             run.violation(sig, what + "; no clause of the property was found violated by the oracle on the explored inputs",
-                          {"case": {k: cases[i][k] for k in ("kind", "clock", "strategy", "prog", "cmds")},
+                          {"case": {k: cases[i][k] for k in ("kind", "clock", "strategy", "prog", "cmds", "lcmds", "rapid", "slow_handler_ms") if k in cases[i]},
                            "impl_observation": {k: obs[i].get(k) for k in ("snaps", "ntfs", "alive", "notes", "error")},
                            "model_view": coq_view(cases[i], obs[i]) if want != 4 else representable(obs[i]),
                            "relation": "Sim.Lifecycle.lcase_code", "other_disagreeing_cases": len(idx) - 1},
